@@ -10,6 +10,8 @@ Clauses
                leaf in order, total length, splitting at bar lines
   spelling     every NAMES(2) spelling x octave 0..10 x instrument x content form: accepted iff the
                *pitch* lies in the instrument's range (range ends reached by B#/Cb-type spellings)
+  range_history  set_range twice on one instrument, every probe around the ends after each: the range in
+               force is the one set last (asked through Track.add_notes)
   fill         i x a then b, b, ... over the value vocabulary through add_notes, two bars deep: bars
                open exactly when the model's last bar is full, all bars but the last full
   composition  bfs over add_track / '+' / add_note / selected_tracks on a real Composition
@@ -805,10 +807,58 @@ def gen_fill(shard):
 
 
 # ---------------------------------------------------------------------------------------
+# (vii) range history: the range in force is the one set last, whatever was asked before
+# ---------------------------------------------------------------------------------------
+RANGES = [(("C", 2), ("C", 6)), (("E", 3), ("E", 4)), (("C", 0), ("B", 8)), (("A", 4), ("A", 4))]
+
+
+def run_range_history(case):
+    """case = [instrument, i, j, as_strings]: set range i, offer every probe, set range j, offer every probe again."""
+    S = engine.S
+    iname, i, j, as_strings = case
+    instr = make_instrument(iname)
+    probes = sorted(set(p for r in (RANGES[i], RANGES[j]) for end in r for p in (R.pitch(end) - 1, R.pitch(end), R.pitch(end) + 1) if p >= 0))
+    for step, ri in enumerate((i, j)):
+        lo_n, hi_n = RANGES[ri]
+        if as_strings:
+            instr.set_range(("%s-%d" % lo_n, "%s-%d" % hi_n))
+        else:
+            instr.set_range((Note(*lo_n), Note(*hi_n)))
+        lo, hi = R.pitch(lo_n), R.pitch(hi_n)
+        for p in probes:
+            note = from_pitch(p)
+            in_range = lo <= p <= hi
+            track = Track(instr)
+            site = "%s after set_range(%s-%d .. %s-%d)%s: add_notes(%s-%d)" % (
+                iname, lo_n[0], lo_n[1], hi_n[0], hi_n[1], " [second range set on this instrument]" if step else "", note[0], note[1])
+            S.trans(1)
+            try:
+                got = track.add_notes(Note(*note), 4)
+                outcome = "accepted" if got is True else "returned %r" % (got,)
+            except InstrumentRangeError:
+                outcome = "range error"
+            except Exception as e:                               # noqa
+                outcome = "raised " + type(e).__name__
+            S.outcome((iname, step, in_range, outcome))
+            S.count("range_history_in" if in_range else "range_history_out")
+            if outcome != ("accepted" if in_range else "range error"):
+                S.problem(site, "accepted" if in_range else "range error", outcome, detail={"pitch": p, "range": [lo, hi]})
+
+
+def gen_range_history(iname):
+    for i in range(len(RANGES)):
+        for j in range(len(RANGES)):
+            for as_strings in (0, 1):
+                yield [iname, i, j, as_strings]
+
+
+# ---------------------------------------------------------------------------------------
 # (iv) composition bfs
 # ---------------------------------------------------------------------------------------
 TRACK_RECIPES = [
     [],
+    # seven eighths in 4/4: not full, but no room for the quarter note that '+' offers
+    [("add", "str", "8")] * 7,
     [("add", "str", "4"), ("add", "str", "4"), ("add", "str", "4")],
     [("add", "list", "2"), ("add", "rest", "2")],
     [("bar", 1), ("add", "rest", "4"), ("add", "note", "2")],
@@ -966,6 +1016,7 @@ def run_composition(case):
 
 
 CLAUSES = {
+    "range_history": run_range_history,
     "spelling": run_spelling,
     "fill": run_fill,
     "accumulate": run_accumulate,
@@ -994,6 +1045,8 @@ def explore(ctx):
         ctx.product("chords", shards, gen_chords)
     if ctx.want("spelling"):
         ctx.product("spelling", [(i, L) for i in INSTRUMENTS if i != "none" for L in "CDEFGAB"], gen_spelling)
+    if ctx.want("range_history"):
+        ctx.product("range_history", [i for i in INSTRUMENTS if i != "none"], gen_range_history)
     if ctx.want("fill"):
         _FILL_MIN[0] = ctx.pick(Fraction(1, 24), Fraction(1, 128))
         fm = ctx.pick([0], [0, 1, 2])
